@@ -20,7 +20,7 @@ from . import common, mapfam
 
 ID = 'C05'
 LEVEL = 'exploration'
-QUOTA = {'quick': 2600, 'thorough': 30000}
+QUOTA = {'quick': 2200, 'thorough': 30000}
 BUDGET = {'quick': 100, 'thorough': 900}
 RULE = ('scenario = either (iter) one generated matrix (empty rows/columns, single row, no stored entry, > 100 stored '
         'entries) in one encoding/dtype/location/HDF5 chunk layout read through the row iterator with a drawn row chunk '
